@@ -154,7 +154,9 @@ def _prelude(spec, ctx):
     storage = MemStorage()
     try:
         U.WORLD.reset(epoch=7, faults=[spec.labels[spec.n - 1]])
-        lab = labtech.Lab(storage=storage, runner_backend='serial', continue_on_failure=False, notebook=False, context=ctx)
+        # (through the spy, for its horizon: a coordinator that never finishes must not hang the checker here)
+        lab = labtech.Lab(storage=storage, runner_backend=SpyBackend(lt_serial.SerialRunnerBackend(), horizon=4 * spec.n + 8),
+                          continue_on_failure=False, notebook=False, context=ctx)
         try:
             lab.run_tasks(list(built.canon), disable_progress=True, disable_top=True)
         except BaseException:  # noqa
@@ -177,7 +179,7 @@ def run_once_serial(cfg, *, max_workers=None, prelude=False, around_run=None, wa
         st0 = MemStorage()
         try:
             U.WORLD.reset(epoch=7)
-            labtech.Lab(storage=st0, runner_backend='serial', notebook=False, context=ctx).run_tasks(
+            labtech.Lab(storage=st0, runner_backend=SpyBackend(lt_serial.SerialRunnerBackend(), horizon=4 * spec.n + 8), notebook=False, context=ctx).run_tasks(
                 list(built.canon), disable_progress=True, disable_top=True)
         except BaseException:  # noqa
             # whatever made this fault-free warm-up run fail shows in the measured run below
